@@ -65,9 +65,15 @@ def instances(tier, seed):
         out.append(dict(label=f'cia n={n}', c07_kind='cia', n=n))
     for name in dsg_pool.TEMPLATES:
         out.append(dict(label=f'iterspec {name}', c07_kind='iterspec', template=name))
+    # seeded random graphs (pools/dsg_random.py), a different batch per VERIF_SEED
+    rnd_names = [f'rnd{s_}' for s_ in range(1000*seed, 1000*seed+(10 if tier == 'quick' else 60))]
+    for name in rnd_names:
+        out.append(dict(label=f'iterspec {name}', c07_kind='iterspec', template=name))
     out.append(dict(label='iterspec synthetic', c07_kind='iterspec', template=None))
     out.append(dict(label='inactive_value', c07_kind='inactive'))
     for name in dsg_pool.TEMPLATES:
+        out.append(dict(label=f'enum_vs_decode {name}', c07_kind='enumdecode', template=name))
+    for name in rnd_names:
         out.append(dict(label=f'enum_vs_decode {name}', c07_kind='enumdecode', template=name))
     if tier == 'thorough':
         out.append(dict(label='crosshair second opinion: iterspec', c07_kind='crosshair', kernel='iterspec'))
